@@ -11,11 +11,11 @@ fail=0; n=0; det=0
 S=$(mktemp -d /tmp/gverif-selftest.XXXXXX)
 trap 'rm -rf "$S"' EXIT
 mkdir -p "$S/verif"; cp $V/known_findings.txt "$S/verif/" 2>/dev/null; cp $V/properties.jsonl "$S/verif/"
-list=$(ls $V/selftest/*/*.diff 2>/dev/null; for d in $V/seeded/*/; do [ -f "$d/patch.diff" ] && echo "$d/patch.diff"; done)
+list=$(ls $V/selftest/*/*.diff 2>/dev/null; for d in $V/seeded/*/ $V/seeded_refactored/*/; do [ -f "$d/patch.diff" ] && echo "$d/patch.diff"; done)
 for d in $list; do
-  if [[ "$d" == */seeded/* ]]; then
+  if [[ "$d" == */seeded/* || "$d" == */seeded_refactored/* ]]; then
     prop=$(python3 -c "import json,sys;print(json.load(open('$(dirname $d)/meta.json'))['property'])")
-    name=seeded/$(basename $(dirname $d))
+    name=$(basename $(dirname $(dirname $d)))/$(basename $(dirname $d))
   else
     prop=$(basename $(dirname $d)); name=$prop/$(basename $d .diff)
   fi
